@@ -740,7 +740,7 @@ def run_check(prop, tier, seed, repo, runs=None, skip_selftest=False, mutants=Fa
         ck.notes.append("the batch was stopped after %d worker deaths" % opts["_aborted_after_deaths"])
 
     # 8. mutants (sensitivity self-test)
-    if mutants or opts.get("mutants"):
+    if (mutants or opts.get("mutants")) and not os.environ.get("AWSIM_NO_MUTANTS"):     # (development aid)
         from . import mutants as mut
         ms = mut.run_catalogue(prop, repo, seed, log=log)
         cov["mutants"] = {k: v for k, v in ms.items() if k != "details"}
